@@ -1,16 +1,14 @@
-INIT TraceInit
-NEXT TraceNext
-INVARIANT TraceChecked
+INIT Init
+NEXT Next
+INVARIANT HandedOutStable
 CONSTANTS
-  NCells = 1
-  NVals = 1
   StoreIn = FALSE
   InPlace = FALSE
   ReadEdits = FALSE
   FirstWriteKeeps = FALSE
-  HookEditsOld = FALSE
+  HookEditsOld = TRUE
   InitKinds = {"absent", "present"}
-  NCases = 1
+  NCases = 0
   MinOps = 1
   MaxOps = 1
   MaxLive = 200
